@@ -29,6 +29,7 @@ properties! {
     "C08" => c08,
     "C09" => c09,
     "C11" => c11,
+    "C12" => c12,
     "C16" => c16,
     "C17" => c17,
     "C18" => c18,
